@@ -416,9 +416,17 @@ func getPtrEncodeHandler(t reflect.Type) (handler EncodeHandler) {
 		case reflect.Map:
 			handler = mapPtrEncode
 		case reflect.Ptr:
-			// (bounded: a type made of nothing but pointers, type P *P, has no element to reach)
-			for i := 0; t.Kind() == reflect.Ptr && i < 64; i++ {
+			// (a type made of nothing but pointers, type P *P, comes back to itself: it has
+			// no element to reach, and the field is left out like one of a kind that has
+			// no encoding)
+			seen := map[reflect.Type]bool{}
+			for t.Kind() == reflect.Ptr && !seen[t] {
+				seen[t] = true
 				t = t.Elem()
+			}
+			if t.Kind() == reflect.Ptr {
+				handler = nil
+				break
 			}
 			switch t.Kind() {
 			case reflect.Func, reflect.Chan, reflect.UnsafePointer:
